@@ -108,9 +108,13 @@ def families_for(want, tier):
         fams.append(SchedFamily(NestedSpace1(2, reps=(1, 2, 3), bodies=N1_BODIES + N1_BODIES_EXTRA), 'H', want, unroll=True))
         fams.append(SchedFamily(NestedSpace2(2), 'G', want, unroll=False))
     else:
+        # F(4) has 1.4e7 programs: C01 runs it under two configurations, C02/C04 under the generic one
         fams.append(SchedFamily(NestedSpace2(2), 'G', want, unroll=True))
-        for cfgname in ('G', 'D'):
-            fams.append(SchedFamily(FlatSpace(4), cfgname, want, unroll=False))
+        fams.append(SchedFamily(FlatSpace(4), 'G', want, unroll=False))
+        if 'C01' in want:
+            fams.append(SchedFamily(FlatSpace(4), 'D', want, unroll=False))
+        else:
+            fams.append(SchedFamily(FlatSpace(3), 'D', want, unroll=False))
         fams.append(SchedFamily(FlatSpace(3), 'H', want, unroll=False))
         fams.append(SchedFamily(NestedSpace1(3, reps=(1, 2, 3), bodies=N1_BODIES + N1_BODIES_EXTRA), 'G', want, unroll=True))
         fams.append(SchedFamily(NestedSpace1(3), 'D', want, unroll=True))
